@@ -103,7 +103,12 @@ impl FileConfig {
                 "interface" => config.interface = value.as_str().unwrap().to_string(),
                 "batch_size" => config.batch_size = int_value("batch_size", value)?,
                 "seed" => {
-                    let val = value.as_str().unwrap().to_string();
+                    // A hex value made only of decimal digits is typed by the YAML parser as a
+                    // number rather than a string; take its text as written
+                    let val = match value {
+                        Yaml::Real(text) => text.clone(),
+                        other => other.as_str().unwrap().to_string(),
+                    };
                     config.seed = HEX
                         .decode(val.as_bytes())
                         .expect("seed value invalid; 'seed' must be a valid hex value");
